@@ -51,6 +51,16 @@ CHECKS = {
             'Trusts Python issubclass/isinstance as the definition of "subclass"; ABC virtual subclasses out of '
             'scope; any matching subclass instance accepted when no exact-type object exists.',
             'DESIGN.md section 3 / C06'),
+    'C07': ('exploration',
+            'model-based stateful property testing (Hypothesis): add/remove/process histories over generated '
+            'Processor hierarchies vs a stable-sorted reference list, call log compared by identity',
+            'Randomised search over histories with shrinking; after every step World.processors, get_processor '
+            'and handler registration are compared with a reference list (stable by priority, one per exact '
+            'type), every process(dt) call log is compared in order with the identical dt object, lifecycle '
+            'callbacks of processors per operation. Small-scope confidence, no proof.',
+            'Trusts the reference model; dispatching enabled throughout; priorities in [-3, 3] plus class '
+            'defaults; any matching subclass accepted for remove_processor when no exact-type processor exists.',
+            'DESIGN.md section 3 / C07'),
 }
 
 ALL = ['C%02d' % i for i in range(1, 21)]
